@@ -52,3 +52,4 @@ pub mod skel;
 // ---------------------------------------------------------------------------
 pub mod c14;
 pub mod c19;
+pub mod c11;
